@@ -111,6 +111,12 @@ type c04Tr struct {
 	loopType  string                                  // result type of a recv loop that is followed by other statements: "res (%s)"
 	boolVars  map[string]bool                         // parameters of type bool
 	zeroOf    map[string]string                       // Gallina term for the zero value a variable holds beside a non-nil error
+	// `x.M(args)` as a statement that updates the variable x: returns the variable and the Gallina term of its new value
+	mutates func(t *c04Tr, env *c04Env, call *ast.CallExpr) (name string, pre []string, g string, ok bool, err error)
+	// `for it.Next() { … }`: the Gallina list the iterator it runs over (set when `it := ….MapRange()` is met)
+	iterOf   func(t *c04Tr, env *c04Env, e ast.Expr) (pre []string, g string, ok bool, err error)
+	iters    map[string]string // iterator variable -> Gallina list
+	iterElem map[string]string // iterator variable -> Gallina name of the current element inside its loop
 
 	inLoop  int
 	brk     []c04Cont
@@ -172,6 +178,16 @@ func (t *c04Tr) expr(env *c04Env, e ast.Expr) ([]string, string, error) {
 			return nil, x.Value, nil
 		}
 	case *ast.CallExpr:
+		if sel, ok := x.Fun.(*ast.SelectorExpr); ok && len(x.Args) == 0 {
+			if id, ok := sel.X.(*ast.Ident); ok && t.iterElem[id.Name] != "" {
+				switch sel.Sel.Name {
+				case "Key":
+					return nil, "(fst " + t.iterElem[id.Name] + ")", nil
+				case "Value":
+					return nil, "(snd " + t.iterElem[id.Name] + ")", nil
+				}
+			}
+		}
 		if id, ok := x.Fun.(*ast.Ident); ok {
 			switch {
 			case id.Name == "len" && len(x.Args) == 1:
@@ -410,6 +426,19 @@ func c04Cat(a, b []ast.Stmt) []ast.Stmt {
 func c04Assigned(env *c04Env, body *ast.BlockStmt) []string {
 	seen := map[string]bool{}
 	ast.Inspect(body, func(n ast.Node) bool {
+		if es, ok := n.(*ast.ExprStmt); ok {
+			// x.M(…) as a statement: x may be updated (the vocabulary decides; an ignored call on a
+			// state variable just carries the variable through the loop unchanged)
+			if call, ok := es.X.(*ast.CallExpr); ok {
+				if sel, ok := call.Fun.(*ast.SelectorExpr); ok {
+					if id, ok := sel.X.(*ast.Ident); ok {
+						if _, outer := env.vars[id.Name]; outer {
+							seen[id.Name] = true
+						}
+					}
+				}
+			}
+		}
 		as, ok := n.(*ast.AssignStmt)
 		if !ok || as.Tok != token.ASSIGN {
 			return true
@@ -500,6 +529,20 @@ func (t *c04Tr) stmts(env *c04Env, l []ast.Stmt, k c04Cont) (string, error) {
 		if call, ok := s.X.(*ast.CallExpr); ok && t.ignore != nil && t.ignore(call) {
 			return t.stmts(env, rest, k)
 		}
+		if call, ok := s.X.(*ast.CallExpr); ok && t.mutates != nil {
+			name, pre, g, ok, err := t.mutates(t, env, call)
+			if err != nil {
+				return "", err
+			}
+			if ok {
+				gn := env.bind(name)
+				body, err := t.stmts(env, rest, k)
+				if err != nil {
+					return "", err
+				}
+				return c04Binds(pre, "let "+gn+" := "+g+" in\n "+body), nil
+			}
+		}
 		return "", t.errf("statement %s is outside the translated fragment", types.ExprString(s.X))
 	case *ast.DeclStmt:
 		gd, ok := s.Decl.(*ast.GenDecl)
@@ -584,6 +627,15 @@ func (t *c04Tr) stmts(env *c04Env, l []ast.Stmt, k c04Cont) (string, error) {
 	case *ast.RangeStmt:
 		return t.rangeLoop(env, s, rest, k)
 	case *ast.ForStmt:
+		if s.Init == nil && s.Post == nil && s.Cond != nil {
+			if call, ok := s.Cond.(*ast.CallExpr); ok && len(call.Args) == 0 {
+				if sel, ok := call.Fun.(*ast.SelectorExpr); ok && sel.Sel.Name == "Next" {
+					if id, ok := sel.X.(*ast.Ident); ok && t.iters[id.Name] != "" {
+						return t.iterLoop(env, s, id.Name, rest, k)
+					}
+				}
+			}
+		}
 		return t.recvLoop(env, s, rest, k)
 	}
 	return "", t.errf("statement outside the translated fragment")
@@ -609,8 +661,49 @@ func (t *c04Tr) assign(env *c04Env, as *ast.AssignStmt, rest []ast.Stmt, k c04Co
 	if err != nil {
 		return "", err
 	}
+	if len(as.Rhs) == len(names) && len(names) > 1 {
+		// a, b := e1, e2 with expressions that do not mention a or b: two assignments
+		for _, r := range as.Rhs {
+			bad := false
+			ast.Inspect(r, func(n ast.Node) bool {
+				if id, ok := n.(*ast.Ident); ok {
+					for _, nm := range names {
+						bad = bad || (nm != "_" && id.Name == nm)
+					}
+				}
+				return true
+			})
+			if bad {
+				return "", t.errf("parallel assignment whose right-hand sides use the assigned variables")
+			}
+		}
+		var seq []ast.Stmt
+		for i := range names {
+			seq = append(seq, &ast.AssignStmt{Lhs: []ast.Expr{as.Lhs[i]}, Tok: as.Tok, Rhs: []ast.Expr{as.Rhs[i]}})
+		}
+		return t.stmts(env, append(seq, rest...), k)
+	}
 	if len(as.Rhs) != 1 {
 		return "", t.errf("parallel assignment")
+	}
+	if len(names) == 1 && t.iterOf != nil && as.Tok == token.DEFINE {
+		// it := reflect.ValueOf(x).MapRange()
+		pre, g, ok, err := t.iterOf(t, env, as.Rhs[0])
+		if err != nil {
+			return "", err
+		}
+		if ok {
+			if t.iters == nil {
+				t.iters = map[string]string{}
+			}
+			v := t.fresh("range")
+			t.iters[names[0]] = v
+			body, err := t.stmts(env, rest, k)
+			if err != nil {
+				return "", err
+			}
+			return c04Binds(pre, "let "+v+" := "+g+" in\n "+body), nil
+		}
 	}
 	if len(names) == 2 {
 		if t.multiHook == nil {
@@ -710,6 +803,47 @@ func (t *c04Tr) rangeLoop(env *c04Env, s *ast.RangeStmt, rest []ast.Stmt, k c04C
 	}
 	return c04Binds(pre, fmt.Sprintf("do %s <- fold_res (fun %s %s =>\n %s) %s %s;\n %s",
 		c04TuplePat(gst), c04TuplePat(gst), vg, body, slice, init, after)), nil
+}
+
+// for it.Next() { … it.Key() … it.Value() … }: a fold over the entries the iterator runs over
+func (t *c04Tr) iterLoop(env *c04Env, s *ast.ForStmt, it string, rest []ast.Stmt, k c04Cont) (string, error) {
+	st := c04Assigned(env, s.Body)
+	benv := env.clone()
+	for _, n := range st {
+		benv.bind(n)
+	}
+	elem := t.fresh("it")
+	if t.iterElem == nil {
+		t.iterElem = map[string]string{}
+	}
+	t.iterElem[it] = elem
+	end := func(e *c04Env) (string, error) { return t.okState(e, st) }
+	t.inLoop++
+	t.brk = append(t.brk, nil)
+	t.cont = append(t.cont, end)
+	body, err := t.stmts(benv, s.Body.List, end)
+	t.inLoop--
+	t.brk = t.brk[:len(t.brk)-1]
+	t.cont = t.cont[:len(t.cont)-1]
+	delete(t.iterElem, it)
+	if err != nil {
+		return "", err
+	}
+	init, err := t.stateExpr(env, st)
+	if err != nil {
+		return "", err
+	}
+	gst := c04Names(st)
+	aenv := env.clone()
+	for _, n := range st {
+		aenv.bind(n)
+	}
+	after, err := t.stmts(aenv, rest, k)
+	if err != nil {
+		return "", err
+	}
+	return fmt.Sprintf("do %s <- fold_res (fun %s %s =>\n %s) %s %s;\n %s",
+		c04TuplePat(gst), c04TuplePat(gst), elem, body, t.iters[it], init, after), nil
 }
 
 func (t *c04Tr) recvLoop(env *c04Env, s *ast.ForStmt, rest []ast.Stmt, k c04Cont) (string, error) {
